@@ -72,11 +72,19 @@ fn main() {
 			// determinism proof protocol: every scenario x N seeds, each executed twice in-process on 16 worker
 			// threads and once more on a single thread; event-log hashes must agree
 			let n: u64 = args.get(2).and_then(|s| s.parse().ok()).unwrap_or(400);
-			let empty = std::collections::BTreeMap::new();
+			let no_params = std::collections::BTreeMap::new();
+			let preempt_params = std::collections::BTreeMap::from([("preempt".to_string(), 1u64)]);
 			let mut bad = 0u64;
 			let mut total = 0u64;
 			for c in &checks {
-				for scen in &c.scens {
+				// (scenarios with preemption points, hook H8, are proved once more with the points switched on)
+				for (scen, empty) in c.scens.iter().flat_map(|s| {
+					let mut v = vec![(s, &no_params)];
+					if search::PREEMPT_SCENS.contains(&s.name) {
+						v.push((s, &preempt_params));
+					}
+					v
+				}) {
 					let hashes: Vec<std::sync::Mutex<(u64, u64)>> = (0..n).map(|_| std::sync::Mutex::new((0, 0))).collect();
 					let next = std::sync::atomic::AtomicU64::new(0);
 					std::thread::scope(|sc| {
@@ -86,8 +94,8 @@ fn main() {
 								if i >= n {
 									break;
 								}
-								let a = search::run_scen(scen, 1000 + i, None, false, &empty, false);
-								let b = search::run_scen(scen, 1000 + i, None, false, &empty, true);
+								let a = search::run_scen(scen, 1000 + i, None, false, empty, false);
+								let b = search::run_scen(scen, 1000 + i, None, false, empty, true);
 								*hashes[i as usize].lock().unwrap() = (a.hash, b.hash);
 							});
 						}
@@ -95,7 +103,7 @@ fn main() {
 					let mut mism = 0;
 					for i in 0..n {
 						let (a, b) = *hashes[i as usize].lock().unwrap();
-						let c1 = search::run_scen(scen, 1000 + i, None, false, &empty, false);
+						let c1 = search::run_scen(scen, 1000 + i, None, false, empty, false);
 						if a != b || a != c1.hash {
 							mism += 1;
 							if mism <= 3 {
@@ -105,7 +113,7 @@ fn main() {
 					}
 					total += n;
 					bad += mism;
-					println!("{} {}: {} seeds x 3 executions (2 on 16 threads, 1 on the main thread): {} mismatches", c.prop, scen.name, n, mism);
+					println!("{} {}{}: {} seeds x 3 executions (2 on 16 threads, 1 on the main thread): {} mismatches", c.prop, scen.name, if empty.is_empty() { "" } else { " (preempt)" }, n, mism);
 				}
 			}
 			println!("selftest: {total} seeds, {bad} mismatches");
